@@ -13,7 +13,7 @@ def md6_event(d, key, L, r, M, bitlen):
         if r is not None: h.rounds = r
         e['r'] = -1 if r is None else int(h.rounds)          # default round count: the SPEC derives it (40 + d/4, at least 80 with a key)
         out = h(M, bitlen) if bitlen is not None else h(M)
-        e['obs'] = B(out) if isinstance(out, (bytes, bytearray)) else [-1]
+        e['obs'] = B(out) if isinstance(out, bytes) else [-1]
     except Exception as ex:
         e['raised'] = type(ex).__name__
         e.setdefault('r', -1 if r is None else r)
